@@ -14,7 +14,9 @@
       `Join::wait`:              wload1   state.load(Acquire) ?  (cur = Blocker::current())  :  return
                                  wstore   to_wake.store(cur.clone())
                                  wload2   state.load(Acquire) ?  wpark : wtake
-                                 wpark    cur.park(None)
+                                 wpark    cur.park(None)        (Env.abort: the JOINER is cancelled while it is
+                                                                 blocked here: the Cancel panic unwinds it out of
+                                                                 `wait`, it never returns; its blocker stays registered)
                                  wtake    to_wake.take()
       `join(self)` = wait, then  ptake    packet.take()  -> Some v => Ok(v)
                                  panictake panic.take()  -> Some p => Err(p) | None => Err(Cancel)
@@ -62,10 +64,11 @@ inductive JPc
   | dload
   | wload1 (k : K) | wstore (k : K) (b : Bid) | wload2 (k : K) (b : Bid) | wpark (k : K) (b : Bid) | wtake (k : K) (b : Bid)
   | ptake | panictake
+  | unwound                 -- left `wait` by the Cancel panic of the joiner itself: the call never returns
   deriving DecidableEq, Repr
 
 /-- environment / caller choices: how the body ends, which API a joiner calls -/
-inductive Env | retVal (v : Nat) | panicWith (p : Nat) | cancelled | callIsDone | callWait | callJoin | go
+inductive Env | retVal (v : Nat) | panicWith (p : Nat) | cancelled | callIsDone | callWait | callJoin | abort | go
   deriving DecidableEq, Repr
 
 structure Sh where
@@ -112,6 +115,7 @@ def jstep (sh : Sh) : JPc → Env → Option (Sh × JPc)
       else some (sh, contK k)
   | .wstore k b, _ => some ({ sh with toWake := some b, clobber := sh.clobber || sh.toWake.isSome }, .wload2 k b)
   | .wload2 k b, _ => some (sh, if sh.state then .wpark k b else .wtake k b)
+  | .wpark _ _, .abort => some (sh, .unwound)
   | .wpark k b, _ => if sh.tok b then some ({ sh with tok := upd sh.tok b false }, contK k) else none
   | .wtake k _, _ => some ({ sh with toWake := none }, contK k)
   | .ptake, _ => match sh.packet with
@@ -120,6 +124,7 @@ def jstep (sh : Sh) : JPc → Env → Option (Sh × JPc)
   | .panictake, _ => match sh.panic with
       | some p => some ({ sh with panic := none, qtaken := true }, .idle (.joined (.err p)))
       | none => some (sh, .idle (.joined .errCancel))
+  | .unwound, _ => none
 
 structure St where
   n : Nat
